@@ -362,11 +362,11 @@ pub fn run(tier: Tier) -> i32 {
         (3, vec![(4, 2), (5, 2), (6, 3)], false),
         (4, vec![(4, 2), (6, 3), (8, 4)], false),
     ];
+    configs.push((4, vec![(4, 2), (6, 3), (8, 4), (10, 5)], false));
+    configs.push((5, vec![(4, 2), (6, 3), (8, 4), (10, 5)], true));
+    configs.push((3, vec![(10, 5), (10, 5), (12, 4)], true));
+    configs.push((5, vec![(4, 2), (6, 3), (8, 4), (10, 5), (12, 4)], false));
     if tier.thorough() {
-        configs.push((4, vec![(4, 2), (6, 3), (8, 4), (10, 5)], false));
-        configs.push((5, vec![(4, 2), (6, 3), (8, 4), (10, 5)], true));
-        configs.push((3, vec![(10, 5), (10, 5), (12, 4)], true));
-        configs.push((5, vec![(4, 2), (6, 3), (8, 4), (10, 5), (12, 4)], false));
         configs.push((4, vec![(8, 4), (8, 4), (8, 4), (8, 4)], true));
         configs.push((2, vec![(12, 4), (12, 6)], true));
         configs.push((6, vec![(4, 2), (4, 2), (6, 3), (6, 3), (6, 2), (8, 4)], true));
